@@ -82,17 +82,26 @@ func verifC07(c *drv.Ctx) {
 	if c.Thorough() {
 		scs = []sc{{3, 1, 2, false}, {3, 2, 2, false}, {3, 3, 2, false}, {4, 2, 1, false}, {4, 3, 1, true}, {2, 2, 3, false}, {3, 2, 2, true}}
 	} else {
-		scs = []sc{{2, 1, 2, false}, {3, 2, 2, false}, {3, 3, 1, true}, {2, 2, 2, true}}
+		// the last one: d = 2 on the length-3 patterns in which a build fails before another request is built
+		// (state a failed build leaves behind in the shared generator meets a second worker)
+		scs = []sc{{2, 1, 2, false}, {2, 2, 2, false}, {3, 2, 1, false}, {3, 3, 1, true}, {2, 2, 2, true}, {-3, 2, 2, false}}
 	}
 	c.R.Rule = "request streams = every outcome pattern over {ok, request error, build error, write error} up to the stated length, run through the REAL startScanEngine + packet engine " +
 		"(packetSource, packetMultiGenerator(N), MergeBufferDataChan, sender, receiver, mergeErrChan, LIFO buffer pool, channel capacities 100->2) under the controlled scheduler; " +
-		"every schedule with at most d deviations from the default schedule is executed; scenarios {maxLen N d slowWriterAndLogger}: " + fmt.Sprint(scs) +
+		"every schedule with at most d deviations from the default schedule is executed; scenarios {maxLen N d slowWriterAndLogger} (a negative maxLen: only the patterns of exactly that length in which a build error occupies the first or second position): " + fmt.Sprint(scs) +
 		"; non-trivial = pattern with at least one request and N workers; distinct = (pattern, N, slow, d)"
 	idx := 0
 	seen := map[string]bool{}
 	for _, s := range scs {
 		s := s
+		buildFailsEarly := s.maxLen < 0
+		if buildFailsEarly {
+			s.maxLen = -s.maxLen
+		}
 		vPatterns([]int{0, 1, 2, 3}, s.maxLen, func(p []int) {
+			if buildFailsEarly && !(len(p) == s.maxLen && (p[0] == 2 || p[1] == 2)) {
+				return
+			}
 			name := fmt.Sprintf("pattern=%s workers=%d slow=%v bound=%d", vPatStr(p), s.workers, s.slow, s.bound)
 			if seen[name] {
 				return
